@@ -14,7 +14,7 @@ for f in ['x/xibc/core/packet/keeper/evm.go', 'adapter/staking/hooks.go', 'adapt
     anchors.setdefault(f, [])
 blocks = {}  # (file, startline, startcol, endline, endcol) -> set(checks that covered)
 allb = set()
-for path in sorted(glob.glob(os.path.join(V, 'bin', 'c??.%s.cover' % tier))):
+for path in sorted(glob.glob(os.path.join(V, 'bin', 'c??.%s*.cover' % tier))):
     cid = os.path.basename(path)[:3].upper()
     for ln in open(path):
         m = re.match(r'github.com/teleport-network/teleport/(\S+):(\d+)\.(\d+),(\d+)\.(\d+) (\d+) (\d+)', ln)
